@@ -272,7 +272,10 @@ def numLR (nOrig nNew : Nat) (off : Option Int) : Int × Int :=
   let nDiff : Int := (nNew : Int) - nOrig
   match off with
   | none => let r := nDiff / 2; (nDiff - r, r)   -- Python floor division
-  | some o => (o, nDiff - o)
+  | some o =>
+    -- `o` cells are added (extension) or removed (restriction) on the left
+    let l := if nDiff > 0 then o else -o
+    (l, nDiff - l)
 
 variable [Add K] [Sub K] [Mul K] [Div K] [IntCast K]
 
